@@ -46,6 +46,8 @@ PINS = {
             ('operator_dict.py', 'UnaryOperatorDict', '__call__')],
     'C09': CACHE + [('operator_dict.py', 'OperatorDict', '_call_binary'), ('operator_dict.py', 'UnaryOperatorDict', '__call__')],
     'C10': CACHE,
+    'C12': [('multivector.py', 'MultiVector', '__call__'), ('multivector.py', 'MultiVector', 'free_symbols'),
+            ('multivector.py', 'MultiVector', '_callable'), ('codegen.py', None, '_lambdify_mv')],
     'C07': [('codegen.py', None, 'codegen_inv'), ('codegen.py', None, 'codegen_hitzer_inv'), ('codegen.py', None, 'codegen_shirokov_inv'),
             ('codegen.py', None, 'codegen_div'), ('codegen.py', None, 'power_supply'), ('codegen.py', 'AdditionChains', 'minimal_chains'),
             ('multivector.py', 'MultiVector', '__pow__'), ('multivector.py', 'MultiVector', 'inv')],
